@@ -3,6 +3,7 @@ package sim
 import (
 	"fmt"
 	"os"
+	"regexp"
 	"path/filepath"
 	"sort"
 	"strings"
@@ -22,6 +23,7 @@ type Result struct {
 	Probes     map[string]int `json:"probes,omitempty"`
 	States     []uint64    `json:"-"`
 	Inter      string      `json:"-"` // interleaving fingerprint
+	ids        map[string]string
 }
 
 func (r *Result) probe(name string) {
@@ -38,8 +40,28 @@ func (r *Result) fault(name string) {
 	r.Faults[name]++
 }
 
+var rawIDPattern = regexp.MustCompile(`(lease|evt|att)_[0-9a-f]{16}`)
+
+// logf appends an event line. Ids generated at run time (crypto/rand, SQLite
+// randomblob) that a world did not already rename are replaced by stable names
+// in order of first appearance, so that two executions of one program produce
+// byte-identical logs.
 func (r *Result) logf(format string, a ...any) {
-	r.Events = append(r.Events, fmt.Sprintf("%04d ", len(r.Events))+fmt.Sprintf(format, a...))
+	line := fmt.Sprintf(format, a...)
+	if strings.Contains(line, "_") {
+		line = rawIDPattern.ReplaceAllStringFunc(line, func(raw string) string {
+			if r.ids == nil {
+				r.ids = map[string]string{}
+			}
+			if n, ok := r.ids[raw]; ok {
+				return n
+			}
+			n := fmt.Sprintf("%s#%d", raw[:strings.IndexByte(raw, '_')], len(r.ids)+1)
+			r.ids[raw] = n
+			return n
+		})
+	}
+	r.Events = append(r.Events, fmt.Sprintf("%04d ", len(r.Events))+line)
 }
 
 // namer renames run-time generated ids by first appearance so that event logs
